@@ -51,9 +51,9 @@ struct C16 : vf::Engine {
         for (int b = 0; b < nb; ++b) { static const char* T = "PSUBF"; int t = (int)r.below(10); char c = t < 4 ? 'P' : t < 6 ? 'S' : t < 7 ? 'U' : t < 9 ? 'B' : 'F'; (void)T; model += c; model += std::to_string(r.below(b + 1)); model += ' '; }
         p.setcfg("model", model); p.setcfg("model_seed", (uint64_t)(r.next() >> 8));
         int ne = r.range(2, 7);
-        for (int e = 0; e < ne; ++e) { static const char* K[] = {"mls", "mls", "mld", "mcf", "tpls", "tpld", "cf", "hp", "hv", "stop"}; p.ops.push_back(vf::mkop("elem").set("kind", K[r.below(10)]).set("seed", (long)(r.next() >> 16))); }
+        for (int e = 0; e < ne; ++e) { static const char* K[] = {"mls", "mls", "mld", "mcf", "tpls", "tpld", "cf", "hp", "hv", "stop", "df", "df", "thermo"}; p.ops.push_back(vf::mkop("elem").set("kind", K[r.below(13)]).set("seed", (long)(r.next() >> 16))); }
         int nc = r.chance(0.5) ? 0 : r.range(1, 2);
-        for (int c = 0; c < nc; ++c) p.ops.push_back(vf::mkop("cons").set("kind", r.chance(0.5) ? "rod" : "ball").set("seed", (long)(r.next() >> 16)));
+        for (int c = 0; c < nc; ++c) { static const char* CK[] = {"rod", "rod", "ball", "ball", "cspeed", "ccoord", "cacc"}; p.ops.push_back(vf::mkop("cons").set("kind", CK[r.below(7)]).set("seed", (long)(r.next() >> 16))); }
         int nm = r.chance(0.6) ? 0 : r.range(1, 2);
         for (int c = 0; c < nm; ++c) p.ops.push_back(vf::mkop("motion").set("seed", (long)(r.next() >> 16)));
         int nops = r.range(5, tier == "thorough" ? 80 : 45);
@@ -66,7 +66,9 @@ struct C16 : vf::Engine {
             else if (w < 43) o = vf::mkop("param").set("e", (int)r.below(ne)).setr("f", r.pick(std::vector<double>{1.5, 2.0, 3.0, 0.4, 0.0})).set("which", (int)r.below(3));
             else if (w < 50) o = vf::mkop("enable").set("e", (int)r.below(ne)).set("on", (int)r.below(2));
             else if (w < 51) o = vf::mkop("cenable").set("c", (int)r.below(3)).set("on", (int)r.below(2));
-            else if (w < 52) o = vf::mkop("menable").set("c", (int)r.below(3)).set("on", (int)r.below(2));
+            else if (w < 52 && r.chance(0.5)) o = vf::mkop("menable").set("c", (int)r.below(3)).set("on", (int)r.below(2));
+            else if (w < 52) o = vf::mkop("cparam").set("c", (int)r.below(3)).setr("v", r.chance(0.2) ? 0.0 : r.uni(-1.5, 1.5));
+            else if (w < 53) o = vf::mkop("cparam").set("c", (int)r.below(3)).setr("v", r.chance(0.2) ? 0.0 : r.uni(-1.5, 1.5));
             else if (w < 54) o = vf::mkop("meas").set("what", (int)r.below(3)).setr("v", r.uni(-2, 2));
             else if (w < 59) o = vf::mkop("lock").set("b", (int)r.below(nb)).set("level", (int)r.below(4));
             else if (w < 65) o = vf::mkop("grav").set("what", (int)r.below(4)).set("b", (int)r.below(nb)).setr("v", r.chance(0.3) ? 0.0 : r.uni(0, 20));   // exactly zero gravity is a special case in Force::Gravity
@@ -84,7 +86,7 @@ struct C16 : vf::Engine {
     // ------------------------------------------------------------------
     struct Sys {
         MultibodySystem sys; SimbodyMatterSubsystem matter; GeneralForceSubsystem forces; Force::Gravity gravity;
-        std::vector<MobilizedBody> mob; std::vector<Elem> elems; std::vector<Constraint> cons; std::vector<Motion> motions; ThrowCtl tc;
+        std::vector<MobilizedBody> mob; std::vector<Elem> elems; std::vector<Constraint> cons; std::vector<std::string> consKind; std::vector<Motion> motions; ThrowCtl tc;
         // measures with state behind them: an Integrate (a z variable) and a Variable (a discrete variable), each with a consumer
         std::unique_ptr<Measure::Integrate> mInt; std::unique_ptr<Measure::Variable> mVar; std::vector<Measure> mAll;
         Sys() : matter(sys), forces(sys), gravity(forces, matter, -YAxis, 9.8) {}
@@ -129,6 +131,8 @@ struct C16 : vf::Engine {
                 else if (e.kind == "tpls") { MobilizedBody& a = anyBody(); e.f = Force::TwoPointLinearSpring(S.forces, a, rv(), S.mob[er.below(nb + 1)], rv() + Vec3(3, 0, 0), er.uni(1, 50), er.uni(0, 1)); }
                 else if (e.kind == "tpld") { MobilizedBody& a = anyBody(); e.f = Force::TwoPointLinearDamper(S.forces, a, rv(), S.mob[er.below(nb + 1)], rv() + Vec3(3, 0, 0), er.uni(0.5, 10)); }
                 else if (e.kind == "cf") e.f = Force::ConstantForce(S.forces, anyBody(), rv(), 10 * rv());
+                else if (e.kind == "df") e.f = Force::DiscreteForces(S.forces, S.matter);
+                else if (e.kind == "thermo") { bool have = false; for (auto& x : S.elems) if (x.kind == "thermo") have = true; if (have) continue; e.f = Force::Thermostat(S.forces, S.matter, 0.5, er.uni(50, 300), er.uni(0.1, 1), 2); }
                 else { HForce* h = new HForce(S.forces, e.kind == "hp", nb, (uint64_t)op.num("seed", 1), &S.tc); e.h = h; e.f = Force::Custom(S.forces, h); if (e.kind != "hp") e.kind = "hv"; }
                 S.elems.push_back(e);
             } else if (op.kind == "motion") {
@@ -140,9 +144,14 @@ struct C16 : vf::Engine {
                 else S.motions.push_back(Motion::Steady(a, cr.uni(-1, 1)));
             } else if (op.kind == "cons") {
                 Rng cr((uint64_t)op.num("seed", 1) * 31 + 7); MobilizedBody& a = S.mob[1 + cr.below(nb)]; MobilizedBody& b = S.mob[cr.below(nb + 1)];
-                if (a.getMobilizedBodyIndex() == b.getMobilizedBodyIndex()) continue;
-                if (op.str("kind", "rod") == "rod") S.cons.push_back(Constraint::Rod(a, Vec3(0.1, 0, 0), b, Vec3(0, 0.2, 0), cr.uni(0.5, 2)));
+                { const std::string ck0 = op.str("kind", "rod"); if ((ck0 == "rod" || ck0 == "ball") && a.getMobilizedBodyIndex() == b.getMobilizedBodyIndex()) continue; }
+                const std::string ck = op.str("kind", "rod");
+                if (ck == "rod") S.cons.push_back(Constraint::Rod(a, Vec3(0.1, 0, 0), b, Vec3(0, 0.2, 0), cr.uni(0.5, 2)));
+                else if (ck == "cspeed") S.cons.push_back(Constraint::ConstantSpeed(a, MobilizerUIndex(0), cr.uni(-1, 1)));
+                else if (ck == "ccoord") S.cons.push_back(Constraint::ConstantCoordinate(a, MobilizerQIndex(0), cr.uni(-0.5, 0.5)));
+                else if (ck == "cacc") S.cons.push_back(Constraint::ConstantAcceleration(a, MobilizerUIndex(0), cr.uni(-2, 2)));
                 else S.cons.push_back(Constraint::Ball(a, Vec3(0.1, 0, 0), b, Vec3(0, 0.2, 0)));
+                S.consKind.push_back(ck);
             }
         }
         addWitnesses(S);
@@ -200,9 +209,15 @@ struct C16 : vf::Engine {
             else if (e.kind == "mcf") { auto& x = Force::MobilityConstantForce::downcast(e.f); x.setForce(f, x.getForce(s)); }
             else if (e.kind == "stop") { auto& x = Force::MobilityLinearStop::downcast(e.f); x.setMaterialProperties(f, x.getStiffness(s), x.getDissipation(s)); x.setBounds(f, x.getLowerBound(s), x.getUpperBound(s)); }
             else if (e.h) e.h->setParam(f, e.h->getParam(s));
+            else if (e.kind == "df") { auto& x = Force::DiscreteForces::downcast(e.f); S.sys.realize(s, Stage::Instance); S.sys.realize(f, Stage::Instance); Vector mfv = x.getAllMobilityForces(s); Vector_<SpatialVec> bfv = x.getAllBodyForces(s); x.setAllMobilityForces(f, mfv); x.setAllBodyForces(f, bfv); }
+            else if (e.kind == "thermo") { auto& x = Force::Thermostat::downcast(e.f); S.sys.realize(s, Stage::Instance); S.sys.realize(f, Stage::Instance); x.setBathTemperature(f, x.getBathTemperature(s)); x.setRelaxationTime(f, x.getRelaxationTime(s)); }
             if (e.f.isDisabled(s)) e.f.disable(f); else e.f.enable(f);
         }
-        for (auto& c : S.cons) { if (c.isDisabled(s)) c.disable(f); else c.enable(f); }
+        for (size_t ci = 0; ci < S.cons.size(); ++ci) { Constraint& c = S.cons[ci]; if (c.isDisabled(s)) c.disable(f); else c.enable(f);
+            S.sys.realize(s, Stage::Instance); S.sys.realize(f, Stage::Instance);
+            if (S.consKind[ci] == "cspeed") { auto& x = Constraint::ConstantSpeed::downcast(c); x.setSpeed(f, x.getSpeed(s)); }
+            else if (S.consKind[ci] == "ccoord") { auto& x = Constraint::ConstantCoordinate::downcast(c); x.setPosition(f, x.getPosition(s)); }
+            else if (S.consKind[ci] == "cacc") { auto& x = Constraint::ConstantAcceleration::downcast(c); x.setAcceleration(f, x.getAcceleration(s)); } }
         for (auto& mo : S.motions) { if (mo.isDisabled(s)) mo.disable(f); else mo.enable(f); }
         S.mVar->setValue(f, S.mVar->getValue(s));
         for (auto& m : S.mob) if (!m.isGround()) { Motion::Level lv = m.getLockLevel(s); if (lv == Motion::NoLevel) m.unlock(f); else m.lockAt(f, m.getLockValueAsVector(s), lv); }
@@ -269,6 +284,10 @@ struct C16 : vf::Engine {
                         else if (e.kind == "mld") { auto& x = Force::MobilityLinearDamper::downcast(e.f); x.setDamping(s, scaled(x.getDamping(s))); modified("parameter MobilityLinearDamper.damping"); }
                         else if (e.kind == "mcf") { auto& x = Force::MobilityConstantForce::downcast(e.f); x.setForce(s, scaled(x.getForce(s))); modified("parameter MobilityConstantForce.force"); }
                         else if (e.kind == "stop") { auto& x = Force::MobilityLinearStop::downcast(e.f); if (which == 1) x.setBounds(s, x.getLowerBound(s) - 0.1 * f - 0.03, x.getUpperBound(s) - 0.05 * f - 0.02); else if (which == 2) x.setMaterialProperties(s, x.getStiffness(s), scaled(x.getDissipation(s))); else x.setMaterialProperties(s, f == 0 ? x.getStiffness(s) * 2 : x.getStiffness(s) * f, x.getDissipation(s)); modified(which == 1 ? "parameter MobilityLinearStop.bounds" : which == 2 ? "parameter MobilityLinearStop.dissipation" : "parameter MobilityLinearStop.stiffness"); }
+                        else if (e.kind == "df") { auto& x = Force::DiscreteForces::downcast(e.f); MobilizedBody& mb = S.mob[1 + (opn * 7 + which) % nb]; S.sys.realize(s, Stage::Instance);
+                            if (which == 0) x.setOneMobilityForce(s, mb, MobilizerUIndex(0), f == 0 ? 0.0 : 3 * f + 0.01 * opn); else if (which == 1) x.setOneBodyForce(s, mb, SpatialVec(Vec3(f, 0.5, -f), Vec3(2 * f, -1, 0.25 * opn))); else { if (f == 0) x.clearAllForces(s); else { S.sys.realize(s, Stage::Position); /* needs the body's pose */ x.addForceToBodyPoint(s, mb, Vec3(0.1, 0.2, 0), Vec3(f, -f, 0.5)); } }
+                            modified(which == 0 ? "parameter DiscreteForces.mobilityForce" : which == 1 ? "parameter DiscreteForces.bodyForce" : "parameter DiscreteForces.clear/addForceToBodyPoint"); }
+                        else if (e.kind == "thermo") { auto& x = Force::Thermostat::downcast(e.f); S.sys.realize(s, Stage::Instance); if (which % 2) x.setRelaxationTime(s, std::max(0.05, scaled(x.getRelaxationTime(s)))); else x.setBathTemperature(s, std::max(1.0, scaled(x.getBathTemperature(s)))); modified(which % 2 ? "parameter Thermostat.relaxationTime" : "parameter Thermostat.bathTemperature"); }
                         else if (e.h) { e.h->setParam(s, scaled(e.h->getParam(s))); modified(e.h->posOnly ? "parameter custom-position-only" : "parameter custom-velocity-dependent"); }
                         else did = false;
                         if (did && before >= Stage::Dynamics) ++probeParamAfterRealize; }
@@ -276,6 +295,10 @@ struct C16 : vf::Engine {
                 else if (op.kind == "enable") { if (!S.elems.empty()) { Elem& e = S.elems[op.num("e", 0) % S.elems.size()]; if (op.num("on", 1)) e.f.enable(s); else e.f.disable(s); modified("enable-flag force " + e.kind); if (before >= Stage::Dynamics) ++probeEnableAfterRealize; } }
                 else if (op.kind == "cenable") { if (!S.cons.empty()) { Constraint& c = S.cons[op.num("c", 0) % S.cons.size()]; if (op.num("on", 1)) c.enable(s); else c.disable(s); modified("enable-flag constraint"); } }
                 else if (op.kind == "menable") { if (!S.motions.empty()) { Motion& mo = S.motions[op.num("c", 0) % S.motions.size()]; if (op.num("on", 1)) mo.enable(s); else mo.disable(s); modified("enable-flag motion"); } }
+                else if (op.kind == "cparam") { if (!S.cons.empty()) { size_t ci = op.num("c", 0) % S.cons.size(); double v = op.real("v", 0.5); Constraint& c = S.cons[ci]; S.sys.realize(s, Stage::Instance);
+                        if (S.consKind[ci] == "cspeed") { Constraint::ConstantSpeed::downcast(c).setSpeed(s, v); modified("parameter ConstantSpeed.speed"); }
+                        else if (S.consKind[ci] == "ccoord") { Constraint::ConstantCoordinate::downcast(c).setPosition(s, v); modified("parameter ConstantCoordinate.position"); }
+                        else if (S.consKind[ci] == "cacc") { Constraint::ConstantAcceleration::downcast(c).setAcceleration(s, v); modified("parameter ConstantAcceleration.acceleration"); } } }
                 else if (op.kind == "meas") { int what = (int)op.num("what", 0) % 3; double v = op.real("v", 1);
                     if (what == 0) { S.mInt->setValue(s, v); modified("z (Measure::Integrate::setValue)"); }
                     else if (what == 1) { S.mVar->setValue(s, v); modified("discrete variable (Measure::Variable::setValue)"); }
